@@ -350,11 +350,11 @@ func runC08(r *Run, p *Prog) {
 		}
 		for k := range want {
 			if !seen[k] {
-				r.Ob("B3", tw.Name.Name, k+" has an arm in the type writer", sw.Pos(), false, "kind not handled: nothing is emitted for it")
+				r.Ob("B3", tw.Name.Name, k+" has an arm in the type writer", tw.Pos(), false, "kind not handled: nothing is emitted for it")
 			}
 		}
 		if !seen["TypeAlias"] {
-			r.Ob("B3", tw.Name.Name, "TypeAlias has an arm in the type writer", sw.Pos(), false, "")
+			r.Ob("B3", tw.Name.Name, "TypeAlias has an arm in the type writer", tw.Pos(), false, "")
 		}
 	})
 	// ---- B4
